@@ -39,8 +39,8 @@ TRUSTED = [
     "Betti numbers = number of unpaired columns of the reduced boundary matrix (reduction certified by coq/ReduceExec.v)",
 ]
 ASSUMPTIONS = [
-    "operations are called within the preconditions asserted or documented by the C++ (vertices present, add_simplex of a non-simplex of "
-    "dimension >= 2, remove_star of a simplex of the complex, add_blocker of a simplex of the complex not inside a larger blocker, "
+    "operations are called within the preconditions asserted or documented by the C++ (vertices present - for add_simplex: present "
+    "or not created yet -, add_simplex of a non-simplex of dimension >= 2, remove_star of a simplex of the complex, add_blocker of a simplex of the complex not inside a larger blocker, "
     "contract_edge of an existing edge)",
     "the harness is compiled with -DNDEBUG (as the library's RelWithDebInfo tests are); Vertex_handle = int",
     "complex_simplex_range is compared as a multiset with the set of subsets accepted by contains(); its traversal is not modelled",
@@ -92,7 +92,9 @@ class Spec:
         if op in ("ae", "aw"):
             return len(a) == 2 and a[0] != a[1] and set(a) <= V
         if op == "as":
-            return len(f) >= 3 and len(f) == len(a) and f <= V and f not in self.K
+            # vertices of the simplex are active ones or not created yet (>= number of slots; add_simplex creates them)
+            return (len(f) >= 3 and len(f) == len(a) and all((v in V) or (self.n <= v < MAXSLOTS) for v in f)
+                    and f not in self.K)
         if op == "ab":
             return len(f) >= 3 and len(f) == len(a) and f in self.K and not any(f < b for b in self.mnf())
         if op == "rv":
@@ -132,6 +134,9 @@ class Spec:
                     new.add(t | {x})
             self.K |= new
         elif op == "as":
+            while self.n <= max(a):
+                self.K.add(frozenset([self.n]))
+                self.n += 1
             self.K |= set(self.faces(a))
         elif op in ("ab", "rv", "re", "rs"):
             self.K = {t for t in self.K if not f <= t}
@@ -266,6 +271,9 @@ def random_history(rng, length, style, allow_trigger):
             if len(V) < 3:
                 continue
             a = sorted(rng.sample(V, min(len(V), rng.choice([3, 3, 3, 4, 4, 5]))))
+            if s.n < MAXSLOTS and rng.random() < 0.12:
+                # a vertex that does not exist yet: add_simplex creates it (and the slots below it)
+                a = sorted(set(a[:-1] + [rng.randrange(s.n, MAXSLOTS)]))
         elif kind == "lk":
             cand = [sorted(t) for t in s.K if len(t) <= 3]
             if not cand:
@@ -346,9 +354,13 @@ def boundary_stream():
     out.append(("identify-square", ["av"] * 4 + ["ae 0 2", "ae 1 2", "ae 1 3", "ae 0 3", "ci 0 1"]))
     out.append(("identify-with-blocker", ["av"] * 5 + ["aw 0 2", "aw 0 3", "aw 2 3", "aw 1 2", "aw 1 3", "aw 1 4", "aw 0 4", "ab 0 2 3", "ci 0 1"]))
     # links of vertices, edges and triangles in complexes with blockers of several sizes
-    out.append(("links-hollow5", complete(5) + ["ab 0 1 2 3 4", "lk 0", "lk 0 1", "lk 0 1 2", "ab 0 1 2", "lk 0", "lk 3", "lk 0 3", "lk 3 4"]))
+    out.append(("links-hollow5", complete(5) + ["ab 0 1 2 3 4", "lk 0", "lk 0 1", "lk 0 1 2", "rs 0 1 2", "lk 0", "lk 3", "lk 0 3", "lk 3 4"]))
     out.append(("links-k6-blockers", complete(6) + ["ab 0 1 2", "ab 0 3 4 5", "ab 1 3 4", "lk 0", "lk 1", "lk 3", "lk 0 3", "lk 1 2", "lk 4 5",
                                                     "lk 3 4 5", "lk 2 3 4"]))
+    # add_simplex with vertices that do not exist yet, with and without deactivated slots below
+    out.append(("add_simplex-new-vertex", ["av"] * 3 + ["as 0 2 3", "as 0 1 5", "cp"]))
+    out.append(("add_simplex-new-vertex-after-removal", ["av"] * 3 + ["rv 1", "as 0 2 3", "as 0 3 4"]))
+    out.append(("add_simplex-new-vertex-after-contraction", ["av"] * 4 + ["ae 0 1", "ae 1 2", "ce 0 1", "as 0 2 4", "rv 3", "as 0 2 5"]))
     out.append(("constructor-mixed", ["mk 6 ; 0 1 2 3 ; 2 3 4 ; 4 5 ; 0 5", "cp", "ce 4 5", "rs 2 3", "as 0 2 3"]))
     return out
 
@@ -630,6 +642,9 @@ def check(ctx, replay=None):
     else:
         thorough = ctx.tier == "thorough"
         hist = load_corpus() + boundary_stream()
+        for (name, ops) in hist:
+            if not simulate(ops)[0]:
+                raise core.CheckError("hand-made history %s violates a precondition of the operations (machinery error)" % name)
         res.count("corpus+boundary-histories", len(hist))
         run_chunk(hist)
         ex = exhaustive_stream(thorough)
